@@ -15,6 +15,7 @@ Each primitive was compared with CPython (/venv/bin/python) on every value kind 
 -/
 import HtmlVerif.Py.Prim
 import HtmlVerif.Model.TextDoc
+import HtmlVerif.Model.Attrs
 
 namespace HtmlVerif.Py
 open HtmlVerif
@@ -173,5 +174,77 @@ def pyReplaceFirstC13 (s old new : PVal) : PyM PVal :=
   | .obj _ _, _, _ => throw .unsupported
   | .dict _, _, _ => throw .unsupported
   | _, _, _ => throw .attributeError
+
+
+/-! ### `str(x)`, `Tag(…)`, `d.as_html_tags(…)` -/
+
+/-- `str(x)`: `pyStr`, and for a `packaging` Version object (Py/PrimC10b.lean `versionObjC10b`) the text recorded in it -/
+def pyStrC13 : PVal → PyM PVal
+  | .obj "Version" fs =>
+    match fieldGet? "text" fs with
+    | some (.str t) => pure (.str t)
+    | _ => throw .unsupported
+  | v => pyStr v
+
+/-- a `str` or an `HTML` -/
+def isTextKindC13 : PVal → Bool
+  | .str _ => true
+  | .html _ => true
+  | _ => false
+
+/-- the attributes `TagAttrDict(**kwargs)` holds for keyword arguments whose values are `str` (kept) or `True` (the empty
+    string) and whose normalised names (`_normalize_attr_name`: Model/Attrs.lean `normAttrName`) are pairwise distinct;
+    anything else (other value kinds, two names that normalise to the same attribute and are merged) is not covered -/
+def attrsOfKwC13 : List (Str × PVal) → List (Str × PVal) → Option (List (Str × PVal))
+  | [], acc => some acc
+  | (k, v) :: r, acc =>
+    if (dictGet? (normAttrName k) acc).isSome then Option.none
+    else match v with
+      | .str s => attrsOfKwC13 r (acc ++ [(normAttrName k, .str s)])
+      | .bool true => attrsOfKwC13 r (acc ++ [(normAttrName k, .str [])])
+      | _ => Option.none
+
+/-- `Tag(name, *children, **kwargs)` (`Tag.__init__` is not translated): for a `str` name, children that are `str` / `HTML`
+    (kept as they are by `TagList(*kids)`) and keyword arguments as in `attrsOfKwC13`, the instance with the four
+    attributes the other translated functions read (the layout of `embNode`, Lemmas/SrcRender.lean); `_add_ws` has its
+    default.  Every other shape is `unsupported`. -/
+def pyMkTagC13 (name children kw : PVal) : PyM PVal :=
+  match name, children, kw with
+  | .str n, .tuple kids, .dict kvs =>
+    if kids.all isTextKindC13 then
+      match attrsOfKwC13 kvs [] with
+      | some attrs =>
+        pure (.obj "Tag" [("name", .str n), ("attrs", .dict attrs), ("children", .obj "TagList" [("data", .list kids)]),
+          ("add_ws", .bool true)])
+      | Option.none => throw .unsupported
+    else throw .unsupported
+  | _, _, _ => throw .unsupported
+
+/-- the argument values `as_html_tags` is recorded for: None / a `str` (`lib_prefix`), a `bool` (`include_version`) -/
+def sameArgC13 : PVal → PVal → Bool
+  | .none, .none => true
+  | .str a, .str b => a == b
+  | .bool a, .bool b => a == b
+  | _, _ => false
+
+def lookupTagsC13 (lp iv : PVal) : List PVal → Option PVal
+  | [] => Option.none
+  | .tuple [lp', iv', r] :: t => if sameArgC13 lp' lp && sameArgC13 iv' iv then some r else lookupTagsC13 lp iv t
+  | _ :: t => lookupTagsC13 lp iv t
+
+/-- `d.as_html_tags(lib_prefix=lp, include_version=iv)`: `HTMLDependency.as_html_tags` is not translated.  What it returns
+    is a parameter: the harness records, in the embedded dependency object under `as_html_tags`, the graph of the real
+    method on the argument pairs in play (a list of `(lib_prefix, include_version, result)`); an object without a record
+    for the pair is outside the fragment.  Values of the built-in kinds have no such method: AttributeError. -/
+def pyAsHtmlTagsC13 (d lp iv : PVal) : PyM PVal :=
+  match d with
+  | .obj _ fs =>
+    match fieldGet? "as_html_tags" fs with
+    | some (.list tbl) =>
+      match lookupTagsC13 lp iv tbl with
+      | some r => pure r
+      | Option.none => throw .unsupported
+    | _ => throw .unsupported
+  | _ => throw .attributeError
 
 end HtmlVerif.Py
